@@ -24,6 +24,19 @@ theorem const_rt (d : Bytes) (v n base pe : Nat)
   have := parseNumLoop_roundtrip d v n base pe henc' hfit n 0 (by omega)
   simpa [parseNumConstant, Nat.mod_one] using this
 
+/-- a new object carries the table handle of the parser -/
+theorem newObject_handle {s s1 : PState} {op n : Nat} (e : newObject op s = .ok (n, s1)) :
+    (slot s1.tree n).tableHandle = s.tableHandle := by
+  unfold newObject at e
+  cases hn : s.tree.newObject op (pOpcodeTableIndex op true) s.tableHandle with
+  | error err => simp [hn, bind, Except.bind] at e
+  | ok r =>
+    obtain ⟨t', i⟩ := r
+    simp only [hn, bind, Except.bind, pure, Except.pure, Except.ok.injEq, Prod.mk.injEq] at e
+    obtain ⟨e1, e2⟩ := e
+    subst e1; subst e2
+    exact (newObject_slot hn).2.2.2.2.2
+
 /-- the common start of `parseSimpleArg`: a fresh object with its `amlOffset` -/
 theorem simpleArg_start {d : Bytes} {s : PState} (h : FP d s) (hsz : s.tree.pool.size < INV) :
     ∃ n s3, (do
@@ -50,7 +63,8 @@ theorem simpleNum_roundtrip {d : Bytes} {s : PState} (h : FP d s) {obj : Nat} (h
     (henc : ∀ i, i < n → d[base + i]? = (encConst v n)[i]?) (hfit : base + n ≤ pe) :
     ∃ a s', simpleNum d obj op n s = .ok (a, s') ∧ a = (some obj, .ok) ∧ FP d s' ∧ PayOnly obj s s' ∧
       (slot s'.tree obj).value = .u64 (v % 256 ^ n) ∧ (slot s'.tree obj).opcode = op ∧
-      s'.r = { offset := base + n, pkgEnd := pe } := by
+      s'.r = { offset := base + n, pkgEnd := pe } ∧ (slot s'.tree obj).infoIndex = pOpcodeTableIndex op true ∧
+      (slot s'.tree obj).tableHandle = (slot s.tree obj).tableHandle := by
   unfold simpleNum
   obtain ⟨_, s1, e1, h1, hp1, hr1, hsl1⟩ := setOpcode_tot h ho op hop hnm hcur
   refine bind_ex e1 ?_
@@ -80,33 +94,35 @@ theorem simpleNum_roundtrip {d : Bytes} {s : PState} (h : FP d s) {obj : Nat} (h
     have p12 : PayOnly obj s1 { s1 with r := { offset := base + n, pkgEnd := pe } } :=
       PayOnly.ofR obj s1 _ (by rw [hr1, hr]) (by rw [hr1, hr]; show base ≤ base + n; omega)
     exact ((hp1.trans p12).trans hp3).trans hp4
-  refine ⟨a, s4, e4, ha, h4, hp14, by rw [hv4, hsl3], ?_, by rw [hr4, hr3]⟩
-  have hsl4 := hp4.links
-  have : (slot s4.tree obj).opcode = (slot s3.tree obj).opcode := by
-    obtain ⟨a', s4', e4', ha', _, _, _, _⟩ := finishSimpleArg_tot h3 ho3 PRes.ok (by rw [hop3]; exact hinfo) (by rw [hop3]; exact hnm)
+  have hfin : slot s4.tree obj = { slot s3.tree obj with infoIndex := pOpcodeTableIndex (slot s3.tree obj).opcode true } := by
     unfold finishSimpleArg at e4
     have eg := getObj_live (s := s3) ho3
     simp only [bind, StateT.bind, eg, Except.bind] at e4
     have eu := updObj_ex (s := s3) (fun o' => { o' with infoIndex := pOpcodeTableIndex (slot s3.tree obj).opcode true }) (live_lt ho3)
     simp only [eu, pure, StateT.pure, Except.pure] at e4
     cases e4
-    show (slot (setAt s3.tree obj _) obj).opcode = _
+    show slot (setAt s3.tree obj _) obj = _
     rw [slot_setAt', if_pos ⟨rfl, live_lt ho3⟩]
-  rw [this]; exact hop3
+  have hth3 : (slot s3.tree obj).tableHandle = (slot s.tree obj).tableHandle := by
+    rw [hsl3]; show (slot s1.tree obj).tableHandle = _; rw [hsl1]
+  refine ⟨a, s4, e4, ha, h4, hp14, by rw [hv4, hsl3], by rw [hfin]; exact hop3, by rw [hr4, hr3],
+    by rw [hfin]; show pOpcodeTableIndex (slot s3.tree obj).opcode true = _; rw [hop3], by rw [hfin]; exact hth3⟩
 
 /-- the start of `parseSimpleArg`, step by step -/
 theorem simpleArg_begin {d : Bytes} {s : PState} (h : FP d s) (hsz : s.tree.pool.size < INV) :
     ∃ n s1 off s3, newObject 0 s = .ok (n, s1) ∧ lex offset s1 = .ok (off, s1) ∧
       updObj n (fun o => { o with amlOffset := off }) s1 = .ok ((), s3) ∧ FP d s3 ∧ Fresh1 n s s3 ∧ s3.r = s.r ∧
-      isK (slot s3.tree n).opcode = false := by
+      isK (slot s3.tree n).opcode = false ∧ (slot s3.tree n).tableHandle = s.tableHandle := by
   obtain ⟨n, s1, e1, h1, f1, hr1, hop1, _⟩ := newObject_step h 0 hsz (by decide) info_const.1
+  have hth1 : (slot s1.tree n).tableHandle = s.tableHandle := newObject_handle e1
   obtain ⟨off, s2, e2, h2, hR2, hs2⟩ := lex_step (rel_offset d) h1
   have hss : s2 = s1 := by rw [hs2, hR2.2]
   subst hss
   have hobj : live s2.tree n = true := f1.liven
   obtain ⟨s3, e3, h3, hp3, hsl3, hr3⟩ := upd_step h2 hobj (fun o => { o with amlOffset := off }) (by keeps_links) Iff.rfl
     (h2.tree.info _ hobj)
-  exact ⟨n, s2, off, s3, e1, e2, e3, h3, f1.thenPay hp3, by rw [hr3, hr1], hp3.notK (by rw [hop1]; decide)⟩
+  exact ⟨n, s2, off, s3, e1, e2, e3, h3, f1.thenPay hp3, by rw [hr3, hr1], hp3.notK (by rw [hop1]; decide),
+    by rw [hsl3]; exact hth1⟩
 
 /-- **an integer constant argument is stored with the encoded value** (`ByteData`, `WordData`, `DWordData`, `QWordData`):
 `parseSimpleArg` on the `n` little-endian bytes of `v` creates a fresh, detached object with the prefix opcode, the value
@@ -118,18 +134,19 @@ theorem const_object_roundtrip {d : Bytes} {s : PState} (h : FP d s) (hsz : s.tr
     (henc : ∀ i, i < n → d[base + i]? = (encConst v n)[i]?) (hfit : base + n ≤ pe) :
     ∃ x s', parseSimpleArg d argType s = .ok ((some x, .ok), s') ∧ FP d s' ∧ live s.tree x = false ∧ live s'.tree x = true ∧
       C13.P s'.tree x = INV ∧ (slot s'.tree x).value = .u64 (v % 256 ^ n) ∧ (slot s'.tree x).opcode = op ∧
-      s'.r = { offset := base + n, pkgEnd := pe } ∧ Fresh1 x s s' := by
-  obtain ⟨x, s1, off, s3, e1, e2, e3, h3, f3, hr3, hk3⟩ := simpleArg_begin h hsz
+      s'.r = { offset := base + n, pkgEnd := pe } ∧ Fresh1 x s s' ∧
+      (slot s'.tree x).infoIndex = pOpcodeTableIndex op true ∧ (slot s'.tree x).tableHandle = s.tableHandle := by
+  obtain ⟨x, s1, off, s3, e1, e2, e3, h3, f3, hr3, hk3, hth3⟩ := simpleArg_begin h hsz
   have hop : op ≠ pOpIntFreedObject ∧ InfoOK (pOpcodeTableIndex op true) ∧ isK op = false := by
     rcases hat with ⟨_, _, e⟩ | ⟨_, _, e⟩ | ⟨_, _, e⟩ | ⟨_, _, e⟩ <;> rw [e]
     · exact ⟨by decide, info_const.2.1, by decide⟩
     · exact ⟨by decide, info_const.2.2.1, by decide⟩
     · exact ⟨by decide, info_const.2.2.2.1, by decide⟩
     · exact ⟨by decide, info_const.2.2.2.2.1, by decide⟩
-  obtain ⟨a, s4, e4, ha, h4, hp4, hv4, hop4, hr4⟩ := simpleNum_roundtrip h3 f3.liven op n hop.1 hop.2.1 hop.2.2 hk3 v base pe
+  obtain ⟨a, s4, e4, ha, h4, hp4, hv4, hop4, hr4, hi4, hth4⟩ := simpleNum_roundtrip h3 f3.liven op n hop.1 hop.2.1 hop.2.2 hk3 v base pe
     (by rw [hr3]; exact hr) henc hfit
   have f4 := f3.thenPay hp4
-  refine ⟨x, s4, ?_, h4, f4.nlive, f4.liven, f4.pn, hv4, hop4, hr4, f4⟩
+  refine ⟨x, s4, ?_, h4, f4.nlive, f4.liven, f4.pn, hv4, hop4, hr4, f4, hi4, by rw [hth4]; exact hth3⟩
   unfold parseSimpleArg
   simp only [bind, StateT.bind, e1, Except.bind, e2, e3]
   rw [ha] at e4
@@ -153,7 +170,8 @@ theorem simpleSlice_roundtrip {d : Bytes} {s : PState} (h : FP d s) {obj : Nat} 
           pure sr.2 : P PRes)
         finishSimpleArg obj res : P (Option Nat × PRes)) s = .ok (a, s') ∧ a = (some obj, .ok) ∧ FP d s' ∧ PayOnly obj s s' ∧
       (slot s'.tree obj).value = .bytes off len ∧ (slot s'.tree obj).opcode = op ∧
-      s'.r = { offset := base + adv, pkgEnd := pe } := by
+      s'.r = { offset := base + adv, pkgEnd := pe } ∧ (slot s'.tree obj).infoIndex = pOpcodeTableIndex op true ∧
+      (slot s'.tree obj).tableHandle = (slot s.tree obj).tableHandle := by
   obtain ⟨_, s1, e1, h1, hp1, hr1, hsl1⟩ := setOpcode_tot h ho op hop hnm hcur
   refine bind_ex e1 ?_
   have ho1 : live s1.tree obj = true := by rw [hp1.links.live]; exact ho
@@ -181,17 +199,19 @@ theorem simpleSlice_roundtrip {d : Bytes} {s : PState} (h : FP d s) {obj : Nat} 
     have p12 : PayOnly obj s1 { s1 with r := { offset := base + adv, pkgEnd := pe } } :=
       PayOnly.ofR obj s1 _ (by rw [hr1, hr]) (by rw [hr1, hr]; show base ≤ base + adv; omega)
     exact ((hp1.trans p12).trans hp3).trans hp4
-  refine ⟨a, s4, e4, ha, h4, hp14, by rw [hv4, hsl3]; rfl, ?_, by rw [hr4, hr3]⟩
-  have : (slot s4.tree obj).opcode = (slot s3.tree obj).opcode := by
+  have hfin : slot s4.tree obj = { slot s3.tree obj with infoIndex := pOpcodeTableIndex (slot s3.tree obj).opcode true } := by
     unfold finishSimpleArg at e4
     have eg := getObj_live (s := s3) ho3
     simp only [bind, StateT.bind, eg, Except.bind] at e4
     have eu := updObj_ex (s := s3) (fun o' => { o' with infoIndex := pOpcodeTableIndex (slot s3.tree obj).opcode true }) (live_lt ho3)
     simp only [eu, pure, StateT.pure, Except.pure] at e4
     cases e4
-    show (slot (setAt s3.tree obj _) obj).opcode = _
+    show slot (setAt s3.tree obj _) obj = _
     rw [slot_setAt', if_pos ⟨rfl, live_lt ho3⟩]
-  rw [this]; exact hop3
+  have hth3 : (slot s3.tree obj).tableHandle = (slot s.tree obj).tableHandle := by
+    rw [hsl3]; show (slot s1.tree obj).tableHandle = _; rw [hsl1]
+  refine ⟨a, s4, e4, ha, h4, hp14, by rw [hv4, hsl3]; rfl, by rw [hfin]; exact hop3, by rw [hr4, hr3],
+    by rw [hfin]; show pOpcodeTableIndex (slot s3.tree obj).opcode true = _; rw [hop3], by rw [hfin]; exact hth3⟩
 
 /-- **a name-string argument is stored with the encoded path**: `parseSimpleArg(NameString)` on the bytes of
 `encName root carets segs` creates a fresh, detached name-path object whose value is the `[]byte` that starts at the first
@@ -205,13 +225,14 @@ theorem name_object_roundtrip {d : Bytes} (hd : d.size + 1024 ≤ 4294967296) {s
       live s'.tree x = true ∧ C13.P s'.tree x = INV ∧
       (slot s'.tree x).value = .bytes base ((encName root carets segs).length - (if segs = [] then 1 else 0)) ∧
       (slot s'.tree x).opcode = opIntNamePath ∧ s'.r = { offset := base + (encName root carets segs).length, pkgEnd := pe } ∧
-      Fresh1 x s s' := by
-  obtain ⟨x, s1, off, s3, e1, e2, e3, h3, f3, hr3, hk3⟩ := simpleArg_begin h hsz
+      Fresh1 x s s' ∧ (slot s'.tree x).infoIndex = pOpcodeTableIndex opIntNamePath true ∧
+      (slot s'.tree x).tableHandle = s.tableHandle := by
+  obtain ⟨x, s1, off, s3, e1, e2, e3, h3, f3, hr3, hk3, hth3⟩ := simpleArg_begin h hsz
   have hrun := name_roundtrip d root carets segs base pe (by omega) hpe hok henc hfit
-  obtain ⟨a, s4, e4, ha, h4, hp4, hv4, hop4, hr4⟩ := simpleSlice_roundtrip h3 f3.liven opIntNamePath (parseNameString d)
+  obtain ⟨a, s4, e4, ha, h4, hp4, hv4, hop4, hr4, hi4, hth4⟩ := simpleSlice_roundtrip h3 f3.liven opIntNamePath (parseNameString d)
     (rel_parseNameString d hd) (by decide) info_const.2.2.2.2.2.2.1 (by decide) hk3 base pe base _ _ (by rw [hr3]; exact hr) hrun
   have f4 := f3.thenPay hp4
-  refine ⟨x, s4, ?_, h4, f4.nlive, f4.liven, f4.pn, hv4, hop4, hr4, f4⟩
+  refine ⟨x, s4, ?_, h4, f4.nlive, f4.liven, f4.pn, hv4, hop4, hr4, f4, hi4, by rw [hth4]; exact hth3⟩
   unfold parseSimpleArg
   simp only [bind, StateT.bind, e1, Except.bind, e2, e3]
   rw [ha] at e4
@@ -228,13 +249,14 @@ theorem string_object_roundtrip {d : Bytes} {s : PState} (h : FP d s) (hsz : s.t
     ∃ x s', parseSimpleArg d argTypeString s = .ok ((some x, .ok), s') ∧ FP d s' ∧ live s.tree x = false ∧
       live s'.tree x = true ∧ C13.P s'.tree x = INV ∧ (slot s'.tree x).value = .bytes base str.length ∧
       (slot s'.tree x).opcode = opStringPrefix ∧ s'.r = { offset := base + (encString str).length, pkgEnd := pe } ∧
-      Fresh1 x s s' := by
-  obtain ⟨x, s1, off, s3, e1, e2, e3, h3, f3, hr3, hk3⟩ := simpleArg_begin h hsz
+      Fresh1 x s s' ∧ (slot s'.tree x).infoIndex = pOpcodeTableIndex opStringPrefix true ∧
+      (slot s'.tree x).tableHandle = s.tableHandle := by
+  obtain ⟨x, s1, off, s3, e1, e2, e3, h3, f3, hr3, hk3, hth3⟩ := simpleArg_begin h hsz
   have hrun := string_roundtrip d str base pe hpe hascii henc hfit
-  obtain ⟨a, s4, e4, ha, h4, hp4, hv4, hop4, hr4⟩ := simpleSlice_roundtrip h3 f3.liven opStringPrefix (parseString d)
+  obtain ⟨a, s4, e4, ha, h4, hp4, hv4, hop4, hr4, hi4, hth4⟩ := simpleSlice_roundtrip h3 f3.liven opStringPrefix (parseString d)
     (rel_parseString d) (by decide) info_const.2.2.2.2.2.1 (by decide) hk3 base pe base _ _ (by rw [hr3]; exact hr) hrun
   have f4 := f3.thenPay hp4
-  refine ⟨x, s4, ?_, h4, f4.nlive, f4.liven, f4.pn, hv4, hop4, hr4, f4⟩
+  refine ⟨x, s4, ?_, h4, f4.nlive, f4.liven, f4.pn, hv4, hop4, hr4, f4, hi4, by rw [hth4]; exact hth3⟩
   unfold parseSimpleArg
   simp only [bind, StateT.bind, e1, Except.bind, e2, e3]
   rw [ha] at e4
